@@ -393,6 +393,8 @@ ORACLE = Oracle()
 
 def prepare(case):
     """derived fields (OpenAPI document, generator config, jsonschema verdicts) are rebuilt from the primary data"""
+    if case["op"] == "codec.union":
+        return prepare_union(case)
     if case["op"] not in ("codec.type",):
         return case
     i = case["in"]
@@ -405,6 +407,122 @@ def prepare(case):
     if case.get("_want_code"):
         d["want"] = ["code"]
     return {"op": case["op"], "in": d}
+
+
+# ------------------------------------------------------------------------------------------------
+# untagged unions: T = {oneOf | anyOf: [alternatives]}; an alternative is {"const": str} | {"null": true} | {"s": schema tree}
+def union_spec(alts, one_of):
+    rd = Render()
+    js = []
+    for a in alts:
+        if "const" in a:
+            js.append(dict({"const": a["const"]}, **({"description": a["doc"]} if a.get("doc") else {})))
+        elif "s" in a:
+            if a["s"]["k"] == "nullable":
+                raise ValueError("a nullable alternative is a nested union")
+            js.append(rd.render(a["s"], "prop"))
+        else:
+            js.append({"type": "null"})
+    real = [a for a in alts if "const" in a or "s" in a]
+    if len(real) < 2:
+        raise ValueError("a union with fewer than two non-null alternatives is an Option / alias, not an enum")
+    if not one_of:
+        # anyOf with a free-form string next to string constants is the relaxed enum of C15
+        plain = any("s" in a and a["s"]["k"] == "str" for a in alts)
+        consts = any("const" in a or ("s" in a and a["s"]["k"] == "enum") for a in alts)
+        if plain and consts:
+            raise ValueError("relaxed enum (C15)")
+    cs = [a["const"] for a in alts if "const" in a]
+    if len(set(cs)) != len(cs):
+        raise ValueError("one constant twice")
+    if any("s" in a and a["s"]["k"] == "enum" and not all(isinstance(v, str) for v in a["s"]["vals"]) for a in alts):
+        raise ValueError("non-string enum alternative")
+    comps = dict(rd.components)
+    comps["T"] = {("oneOf" if one_of else "anyOf"): js}
+    spec = {"openapi": "3.1.0", "info": {"title": "t", "version": "1"}, "paths": {}, "components": {"schemas": comps}}
+    root = {"$schema": "https://json-schema.org/draft/2020-12/schema", "$ref": "#/components/schemas/T", "components": {"schemas": comps}}
+    return spec, root
+
+
+def prepare_union(case):
+    i = case["in"]
+    spec, root = union_spec(i["alts"], i["oneOf"])
+    docs = [d["doc"] if isinstance(d, dict) and set(d) == {"doc", "valid"} else d for d in i["docs"]]
+    verdicts = ORACLE.ask(root, docs)
+    d = {"alts": i["alts"], "oneOf": i["oneOf"], "docs": [{"doc": x, "valid": v} for x, v in zip(docs, verdicts)],
+         "spec": spec, "cfg": {"all_schemas": True}, "mode": "types", "root": "T"}
+    if case.get("_want_code"):
+        d["want"] = ["code"]
+    return {"op": "codec.union", "in": d}
+
+
+UNION_CONSTS = ["red", "green", "auto", "foo-bar", "Z9", "on hold", ""]
+
+
+def union_alt_pool(r):
+    o = lambda props, addl, ref=False: dict({"k": "obj", "props": props, "addl": addl}, **({"ref": True} if ref else {}))
+    P = lambda n, s, req=True: {"n": n, "s": s, "req": req, "d": None}
+    return [
+        {"s": {"k": "str"}}, {"s": {"k": "bool"}}, {"s": {"k": "num", "f32": False}}, {"s": {"k": "int", "f": None}}, {"s": {"k": "int", "f": "int32"}},
+        {"s": {"k": "int", "f": "uint8"}}, {"s": {"k": "str", "f": "int64"}},
+        {"s": {"k": "arr", "s": {"k": "str"}}}, {"s": {"k": "arr", "s": {"k": "int", "f": "int32"}}}, {"s": {"k": "map", "s": {"k": "bool"}}},
+        {"s": {"k": "enum", "vals": ["p", "q"]}}, {"s": {"k": "enum", "vals": ["p", "q", "foo-bar"], "ref": True}},
+        {"s": o([P("a", {"k": "str"})], "absent")}, {"s": o([P("a", {"k": "str"})], "closed", True)},
+        {"s": o([P("a", {"k": "str"}), P("b", {"k": "int", "f": None})], "absent", True)},
+        {"s": o([P("a", {"k": "str"}), P("b", {"k": "int", "f": None}, False)], "closed")},
+        {"s": o([P("b", {"k": "int", "f": "int32"})], "absent", True)}, {"s": o([P("c", {"k": "nullable", "s": {"k": "bool"}}, False)], "closed", True)},
+        {"s": o([P("type", {"k": "enum", "vals": ["x", "y"]}), P("v", {"k": "num", "f32": False}, False)], "absent", True)},
+        {"null": True},
+    ] + [{"const": c} for c in UNION_CONSTS] + [{"const": "auto", "doc": "the default"}]
+
+
+def union_docs(alts, r):
+    docs = [None, "zzz", 7, 1.5, True, [], {}, ["a"], {"a": "x"}, {"a": "x", "b": 1}, {"b": 2}]
+    for a in alts:
+        if "const" in a:
+            docs.append(a["const"])
+        elif "s" in a:
+            for _ in range(2):
+                docs.append(inst(a["s"], r))
+            base = inst(a["s"], r, wild=0)
+            muts = [m for _, m in mutations(a["s"], base)]
+            docs += r.sample(muts, min(2, len(muts)))
+    seen, out = set(), []
+    for d in docs:
+        key = json.dumps(d, sort_keys=True)
+        if key not in seen:
+            seen.add(key)
+            out.append(d)
+    return out
+
+
+def mku(alts, one_of, docs):
+    return {"op": "codec.union", "in": {"alts": alts, "oneOf": one_of, "docs": docs}}
+
+
+def union_cases(ctx, r):
+    """all-const unions of every size <= 3, every ordered pair of the alternative pool, random 2-4 lists; oneOf and anyOf"""
+    out = []
+    pool = union_alt_pool(r)
+    lists = []
+    consts = [{"const": c} for c in UNION_CONSTS]
+    for n in (2, 3):
+        for _ in range(4 if ctx.quick else 20):
+            lists.append(r.sample(consts, n))
+    lists.append([{"const": "red", "doc": "warm"}, {"const": "green"}, {"null": True}])
+    pairs = [[copy.deepcopy(a), copy.deepcopy(b)] for a in pool for b in pool if a is not b]
+    lists += r.sample(pairs, 120) if ctx.quick else pairs
+    for _ in range(120 if ctx.quick else 3000):
+        lists.append([copy.deepcopy(x) for x in r.sample(pool, r.randint(2, 4))])
+    for alts in lists:
+        for one_of in (True, False):
+            try:
+                union_spec(alts, one_of)
+            except ValueError:
+                continue
+            out.append(mku(alts, one_of, union_docs(alts, r)))
+    return out
+
 
 
 def mk(schema, docs):
@@ -567,6 +685,7 @@ def cases(ctx):
         except ValueError:
             continue
         out.append(mk(s, gen_docs(s, r, 4, 5)))
+    out += union_cases(ctx, r)
     return out
 
 
@@ -639,8 +758,9 @@ def arena_run(ctx, tcases):
         for d, run in zip(sin["docs"], runs):
             # what the decoder builds out of an INVALID document is not part of the property: only acceptance
             obs.append(run if (d["valid"] or not run["ok"]) else {"ok": True})
-        case = {"op": "codec.run", "in": tcases[i]["in"]}
-        outp.append((case, {"op": "codec.run", "in": {k: v for k, v in sin.items() if k in ("schema", "docs")}, "impl": {"runs": obs}}))
+        rop = "codec.urun" if tcases[i]["op"] == "codec.union" else "codec.run"
+        case = {"op": rop, "in": tcases[i]["in"]}
+        outp.append((case, {"op": rop, "in": {k: v for k, v in sin.items() if k in ("schema", "docs", "alts", "oneOf")}, "impl": {"runs": obs}}))
     return outp
 
 
@@ -662,11 +782,14 @@ def run(ctx):
             if len(ctx.violations) >= 3:
                 break
         ctx.extra["instances"] = sum(len(c["in"]["docs"]) for c in allc)
+        ctx.extra["union_cases"] = sum(1 for c in allc if c["op"] == "codec.union")
         if not ctx.quick and not ctx.violations:
             tc = [c for c in allc if c["op"] == "codec.type"]
-            pick = [c for c in corpus if c["op"] == "codec.type"]
+            pick = [c for c in corpus if c["op"] in ("codec.type", "codec.union")]
             rest = [c for c in tc if c not in pick]
             pick += ctx.rng.sample(rest, min(600, len(rest)))
+            uc = [c for c in allc if c["op"] == "codec.union" and c not in pick]
+            pick += ctx.rng.sample(uc, min(250, len(uc)))
             pairs = arena_run(ctx, pick)
             if pairs:
                 answers = ctx.run_model([t for _, t in pairs])
@@ -678,10 +801,13 @@ def run(ctx):
             "Sem/Codec.lean: serde's derived Deserialize/Serialize for the emitted shapes (integer widths, Option, Vec, HashMap, unit enums with rename/alias, structs with rename / flatten map / deny_unknown_fields / container default / skip_serializing_none, visit_seq of structs) — validated on compiled code by tie A in the thorough tier",
             "Sem/Codec.lean `valid`: JSON Schema evaluator for type/enum/items/properties/required/additionalProperties — cross-checked against python jsonschema (Draft 2020-12) on every generated instance",
             "numbers are identified with canonical decimals (generated decimals have <= 6 significant digits; 1 and 1.0 are one value)",
+            "Sem/Union.lean: serde's derived untagged enum (buffered input, variants tried in declaration order, unit variant = JSON unit) and the JSON-Schema meaning of oneOf / anyOf / const — validated on compiled code by tie A (codec.urun) and against python jsonschema on every document",
             "syn-based expansion of the emitted types (harness/src/k_codec.rs); type NAMES are dropped (C09/C13)"],
         rule="E: bounded-exhaustive one-member objects {string, boolean, number x {none,float}, integer x 9 formats, 4 enums, 2 inline/$ref objects} x 9 wrappers (plain, nullable, array, map, nested) x {required, optional, default} x additionalProperties {absent, false, integer, string} "
              "+ field-name collision families + the same objects written as allOf hierarchies (bounded-exhaustive two-layer shapes x all layer-name orders; random 1-3 layer layouts on 30% of the random trees) + pairs of inline objects that differ only by members named like schema keywords + an array member next to the sibling named like its singular, both with inline object types + random schema trees of depth <= 3 (inline / hoisted into components at random); each with valid instances from an independent generator and single-mutation near-misses "
-             "(missing required, wrong JSON type, undeclared enum value, unknown member, positional array); A (thorough): 600 of those compiled and executed; distinct by input hash, non-trivial = any case",
+             "(missing required, wrong JSON type, undeclared enum value, unknown member, positional array); "
+             "untagged unions as the root type (codec.union): unions of 2-3 constants, ordered pairs over a pool of 27 alternatives (sampled in the quick tier), random lists of 2-4, each as oneOf and anyOf, with instances and mutations of every alternative, every constant, null and a fixed cross set; "
+             "A (thorough): 600 of the object cases and 250 of the union cases compiled and executed; distinct by input hash, non-trivial = any case",
         assumptions=["the root schema is an object named T; non-object schemas are tested as its required member `v`",
-                     "default --enum-mode merge, no discriminators/unions (C13/C14/C15); allOf only as a hierarchy of plain objects (members spread over 1-3 named layers, flat or chained, layer names on both sides of the root in name order), no string formats with serde_with codecs (date, date-time, uuid, byte), no `additionalProperties: true`",
+                     "default --enum-mode merge, no discriminators (C14); unions only as the root type, without nullable alternatives, non-string enums, or (anyOf) a free-form string next to constants / string enums (the relaxed enum of C15); allOf only as a hierarchy of plain objects (members spread over 1-3 named layers, flat or chained, layer names on both sides of the root in name order), no string formats with serde_with codecs (date, date-time, uuid, byte), no `additionalProperties: true`",
                      "property names are ASCII (any_ascii is the identity) and avoid C09's panicking names"])
